@@ -39,7 +39,8 @@ def pipeline_instance():
     from pb_bss.evaluation.sxr_module import output_sxr
 
     def make(B):
-        return {'K': B.choose('K', [2, 3]), 'F': B.choose('F', [33, 65, 257]), 'model': B.choose('model', ['cacgmm', 'cwmm']),
+        return {'K': B.choose('K', [2, 3, 3]), 'F': B.choose('F', [33, 65, 257]), 'model': B.choose('model', ['cacgmm', 'cwmm']),
+                'cycle': B.choose('cycle', [False, True]), 'use_eig': B.choose('use_eig', [False, True]),
                 'seed': B.choose('seed', list(range(5000))), 'd': B.given('d', np.zeros(1))}
 
     def call(inp):
@@ -59,6 +60,8 @@ def pipeline_instance():
         _, a, b = dhtv.alignment_plan[0]
         field = np.stack([rng.permutation(K) for _ in range(F)], axis=1)
         maj = rng.permutation(K)
+        if inp['cycle']:
+            maj = np.roll(np.arange(K), 1)           # the majority order is a K-cycle (not self-inverse for K = 3)
         idx = np.arange(a, b)
         rng.shuffle(idx)
         field[:, idx[:int(np.ceil(0.75 * len(idx)))]] = maj[:, None]
@@ -88,6 +91,11 @@ def pipeline_instance():
                 tgt = psd[:, k]
                 noi = psd.sum(1) - tgt
                 kw = {'ref_channel': 0} if 'souden' in name else ({'reference_channel': 0} if 'wmwf' in name else {})
+                if inp['use_eig']:
+                    if name.startswith('gev'):
+                        kw['use_eig'] = True
+                    elif name.startswith('rank1_gev'):
+                        kw['atf_kwargs'] = {'use_eig': True}
                 w = get_bf_vector(name, tgt, noi, **kw)           # (F, D)
                 shapes['w'] = w.shape
                 for j in range(K):
